@@ -17,6 +17,7 @@ pub mod c12;
 pub mod c13;
 pub mod c15;
 pub mod c16;
+pub mod c18;
 pub mod c19;
 pub mod c20;
 
@@ -39,6 +40,7 @@ pub fn lanes_of(id: &str) -> Vec<(&'static str, LaneFn)> {
         "C13" => vec![("histories", c13::histories), ("long_histories", c13::long_histories)],
         "C15" => vec![("random", c15::random), ("patterns", c15::patterns)],
         "C16" => vec![("paging", c16::paging)],
+        "C18" => vec![("table", c18::table)],
         "C19" => vec![("requests", c19::requests), ("responses", c19::responses), ("envelope", c19::envelope)],
         "C20" => vec![("random", c20::random), ("errors", c20::errors)],
         _ => vec![],
@@ -79,6 +81,7 @@ pub fn replay(ctx: &Ctx, id: &str, v: &Value) -> Value {
         "C13" => c13::replay(ctx, v),
         "C15" => c15::replay(ctx, v),
         "C16" => c16::replay(ctx, v),
+        "C18" => c18::replay(ctx, v),
         "C19" => c19::replay(ctx, v),
         "C20" => c20::replay(ctx, v),
         _ => Report::new(),
